@@ -15,7 +15,7 @@ comes from the same call.
 """
 import ast
 
-from ..core.astutil import norm, ParentMap
+from ..core.astutil import where_unpack, norm, ParentMap
 from ..core.cfg import CFG
 from ..core.loader import walk_no_nested
 from ..core.pattern import Matcher
@@ -97,12 +97,12 @@ def _core(prog, rep, eng, f, thr, degfn, idx):
         return feats
     feats['degree-position'] = 'first statement of the loop'
     # peel set
-    pe = [s for s in lp.body if isinstance(s, ast.Assign) and isinstance(s.targets[0], ast.Tuple) and len(s.targets[0].elts) == 1 and isinstance(s.value, ast.Call) and norm(s.value.func) == 'np.where']
+    pe = [s for s in lp.body if where_unpack(s) is not None]
     okp = False
     F = None
     if pe:
-        F = norm(pe[0].targets[0].elts[0])
-        a = pe[0].value.args[0]
+        F = norm(where_unpack(pe[0])[0])
+        a = where_unpack(pe[0])[1]
         forms = ['np.logical_and(%s < %s, %s > 0)' % (D, thr, D), 'np.logical_and(%s > 0, %s < %s)' % (D, D, thr), '(%s < %s) & (%s > 0)' % (D, thr, D), '(%s > 0) & (%s < %s)' % (D, D, thr),
                  'np.logical_and(0 < %s, %s < %s)' % (D, D, thr)]
         okp = any(m.match(a, t) for t in forms)
